@@ -23,6 +23,9 @@ type world struct {
 	nwallet  int
 	stopDone chan struct{}
 	started  bool
+	paused   bool
+	auto     bool
+	autoStop bool
 }
 
 func scratchRoot() string {
@@ -67,9 +70,9 @@ func (x *world) mine() (*massutil.Block, error) {
 	return b, nil
 }
 
-// start runs the real WalletManager.Start (catch-up, then the handler and worker goroutines).
-// waitWorker: wait until the worker goroutine has finished its start-up read transaction
-// (observed through the database wrapper only).
+// start runs the real WalletManager.Start (catch-up, task queue, then the handler and worker
+// goroutines). waitWorker: wait until the worker goroutine is parked in its select (observed
+// through the goroutine stacks only).
 func (x *world) start(waitWorker bool) error {
 	if err := x.w.WM.Start(); err != nil {
 		return err
@@ -77,22 +80,12 @@ func (x *world) start(waitWorker bool) error {
 	x.started = true
 	if waitWorker {
 		ok := sched.Until(5*time.Second, func() bool {
-			for _, e := range x.ctl.Events() {
-				if e.Role == sched.Worker && e.Fn == "worker" && e.Point == "viewend" {
-					return true
-				}
-			}
-			return false
-		})
-		if !ok {
-			return fmt.Errorf("worker goroutine did not finish its start-up view")
-		}
-		// the task queue is assigned inside that view; give the goroutine the few instructions
-		// it needs to reach its select
-		sched.Until(2*time.Second, func() bool {
 			g := sched.Find("masswallet.worker(")
 			return g != nil && g.State == "select"
 		})
+		if !ok {
+			return fmt.Errorf("worker goroutine did not reach its select")
+		}
 	}
 	return nil
 }
@@ -121,14 +114,74 @@ func (x *world) importWallet() (string, string, error) {
 	return s.WalletID, pass, nil
 }
 
-// stop runs the real WalletManager.Stop in its own goroutine.
+// stop runs the real WalletManager.Stop in its own goroutine and returns once quit is known to
+// be closed: the stopping goroutine stands in quitWg.Wait (or is already past it). While this
+// function runs the harness grants nothing, so no observable event is recorded between the note
+// "s" and the moment quit is really closed.
 func (x *world) stop() {
 	x.stopDone = make(chan struct{})
+	x.paused = true
 	x.ctl.Note("Stop", "s")
 	go func() {
 		x.w.WM.Stop()
 		close(x.stopDone)
 	}()
+	sched.Until(5*time.Second, func() bool {
+		select {
+		case <-x.stopDone:
+			return true
+		default:
+		}
+		if x.ctl.IsClosed() {
+			return true
+		}
+		return sched.Find("NtfnsHandler).Stop(", "sync.(*WaitGroup).Wait") != nil
+	})
+	x.paused = false
+}
+
+// autoGrant starts a goroutine that grants every pending handler/worker event as soon as it
+// appears (free running, but still serialised through the gates), except while paused.
+func (x *world) autoGrant() {
+	if x.auto {
+		return
+	}
+	x.auto = true
+	go func() {
+		for !x.autoStop {
+			if !x.paused {
+				x.ctl.Grant(sched.Handler)
+				x.ctl.Grant(sched.Worker)
+			}
+			time.Sleep(50 * time.Microsecond)
+		}
+	}()
+}
+
+// settle waits (at most d) until the handler and the worker goroutines are both parked: held at
+// a gate, idle in their select, or blocked on a channel / mutex.
+func (x *world) settle(d time.Duration) {
+	parked := func(name string, role sched.Role) bool {
+		if _, ok := x.ctl.Pending(role); ok {
+			return true
+		}
+		g := sched.Find(name)
+		if g == nil {
+			return true
+		}
+		switch g.State {
+		case "select", "chan receive", "chan send", "sync.Mutex.Lock", "semacquire":
+			return true
+		}
+		return false
+	}
+	sched.Until(d, func() bool {
+		if !(parked("masswallet.handle(", sched.Handler) && parked("masswallet.worker(", sched.Worker)) {
+			return false
+		}
+		time.Sleep(300 * time.Microsecond)
+		return parked("masswallet.handle(", sched.Handler) && parked("masswallet.worker(", sched.Worker)
+	})
 }
 
 func (x *world) stopReturned(d time.Duration) bool {
